@@ -288,6 +288,7 @@ func idsOf(rows []any) ([]float64, bool) {
 }
 
 func (p *c01) RunCase(i int) *core.CaseResult {
+	defer withNoise()()
 	r := &core.CaseResult{}
 	pred := p.preds[i]
 	sel := NewSelect("t", Item{E: Col{"id"}})
